@@ -147,8 +147,8 @@ func cursorDeref(in ssa.Instruction) (bool, string) {
 			return true, path(x)
 		}
 	case *ssa.Call:
-		if cal := staticCallee(&x.Call); cal != nil && cal.Name() == "valueUnchecked" {
-			return true, "valueUnchecked()"
+		if cal := staticCallee(&x.Call); cal != nil && isUncheckedDerefMethod(cal) {
+			return true, cal.Name() + "()"
 		}
 		if cal := staticCallee(&x.Call); cal != nil && (cal.Name() == "leftmostLeaf" || cal.Name() == "rightmostLeaf") && len(x.Call.Args) == 1 && strings.Contains(path(x.Call.Args[0]), ".curr.") {
 			return false, ""
@@ -198,12 +198,9 @@ func ruleCursorValidated(c *Ctx, r *R) {
 			}
 			return 0, false
 		}
-		pf.Edge = func(f *ssa.Function, b *ssa.BasicBlock, idx int, q int) (StateSet, bool) {
-			iff, ok := b.Instrs[len(b.Instrs)-1].(*ssa.If)
-			if !ok {
-				return 0, false
-			}
-			g := guard{cond: iff.Cond, val: idx == 0}
+		pf.Edge = func(f *ssa.Function, g guard, q int) (StateSet, bool) {
+		b := g.blk
+		_ = b
 			if v, val := g.boolVal(); isLostCall(v) {
 				if !val {
 					return ss(q | 1), true
@@ -280,7 +277,7 @@ func ruleCursorValidated(c *Ctx, r *R) {
 	// lost() short-circuits on an unchanged gen and must be false for curr == nil
 	res := false
 	instrs(lost, func(b *ssa.BasicBlock, i int, in ssa.Instruction) {
-		if bin, ok := in.(*ssa.BinOp); ok && bin.Op == token.NEQ && strings.HasSuffix(path(bin.X), "c.gen") && strings.HasSuffix(path(bin.Y), ".t.gen") {
+		if bin, ok := in.(*ssa.BinOp); ok && (bin.Op == token.NEQ || bin.Op == token.EQL) && ((strings.HasSuffix(path(bin.X), "c.gen") && strings.HasSuffix(path(bin.Y), ".t.gen")) || (strings.HasSuffix(path(bin.Y), "c.gen") && strings.HasSuffix(path(bin.X), ".t.gen"))) {
 			res = true
 		}
 	})
@@ -407,4 +404,63 @@ func ruleStickyWhile(c *Ctx, r *R, name string) {
 			r.ok(ok, name+"|pull-under-not-done#"+itoa(i+1), p.Pos(), "While must not pull after it reported the end")
 		}
 	}
+}
+
+// isUncheckedDerefMethod: a cursor method (other than the navigation/validation ones) whose body dereferences
+// c.curr without first testing it against nil - calling it is as good as a raw dereference at the call site.
+func isUncheckedDerefMethod(f *ssa.Function) bool { return uncheckedDeref(f, 0) }
+
+func uncheckedDeref(f *ssa.Function, depth int) bool {
+	if depth > 3 {
+		return false
+	}
+	if f.Signature.Recv() == nil || !isNamedType(f.Signature.Recv().Type(), treeRel, "cursor") {
+		return false
+	}
+	switch f.Name() {
+	case "Next", "Prev", "lost", "refind", "find", "seek", "Ok", "Key", "Forward", "Backward":
+		return false
+	}
+	if strings.HasPrefix(f.Name(), "Seek") {
+		return false
+	}
+	res := false
+	instrs(f, func(b *ssa.BasicBlock, i int, in ssa.Instruction) {
+		if call, isCall := in.(*ssa.Call); isCall {
+			// a wrapper around another unchecked accessor (pairUnchecked → valueUnchecked)
+			if cal := staticCallee(&call.Call); cal != nil && cal != f && uncheckedDeref(cal, depth+1) {
+				nilChecked := false
+				for _, g := range guardsOf(b) {
+					if cf, ok := g.asCmp(); ok && strings.HasSuffix(path(cf.x), ".curr") && isNilConst(cf.y) && cf.op == token.NEQ {
+						nilChecked = true
+					}
+				}
+				if !nilChecked {
+					res = true
+				}
+			}
+			return
+		}
+		fa, ok := in.(*ssa.FieldAddr)
+		if !ok || !isNamedType(fa.X.Type(), treeRel, "node") || !strings.HasSuffix(path(fa.X), ".curr") {
+			return
+		}
+		guarded := false
+		for _, g := range guardsOf(b) {
+			if cf, ok := g.asCmp(); ok && strings.HasSuffix(path(cf.x), ".curr") && isNilConst(cf.y) && cf.op == token.NEQ {
+				guarded = true
+			}
+			if v, val := g.boolVal(); val {
+				if call, ok := v.(*ssa.Call); ok {
+					if cal := staticCallee(&call.Call); cal != nil && cal.Name() == "refind" {
+						guarded = true
+					}
+				}
+			}
+		}
+		if !guarded {
+			res = true
+		}
+	})
+	return res
 }
